@@ -42,6 +42,34 @@ func untieFloat(typ zed.Type, body zcode.Bytes) zcode.Bytes {
 	return zed.EncodeFloat64(0)
 }
 
+// ---- class: signalling NaN of a narrow float quieted by the vector path
+
+func isSNaN(typ zed.Type, body zcode.Bytes) bool {
+	if body == nil || !zed.IsPrimitiveType(typ) {
+		return false
+	}
+	switch typ.ID() {
+	case zed.IDFloat16:
+		return len(body) == 2 && body[1]&0x7c == 0x7c && (body[1]&0x03 != 0 || body[0] != 0) && body[1]&0x02 == 0
+	case zed.IDFloat32:
+		return len(body) == 4 && body[3]&0x7f == 0x7f && body[2]&0x80 != 0 && (body[2]&0x7f != 0 || body[1] != 0 || body[0] != 0) && body[2]&0x40 == 0
+	}
+	return false
+}
+
+func quietNaN(typ zed.Type, body zcode.Bytes) zcode.Bytes {
+	if !isSNaN(typ, body) {
+		return body
+	}
+	out := append(zcode.Bytes(nil), body...)
+	if typ.ID() == zed.IDFloat16 {
+		out[1] |= 0x02
+	} else {
+		out[2] |= 0x40
+	}
+	return out
+}
+
 // ---- class: union vector under nulls (own null values or a null ancestor record)
 
 func isUnionT(typ zed.Type) bool { _, ok := typ.(*zed.TypeUnion); return ok }
@@ -353,6 +381,18 @@ func hasPlainNet(c *checked) bool {
 }
 
 var knownClasses = []knownClass{
+	{
+		sig:     "C03/vector/float-snan-quieted",
+		stage:   "vector",
+		present: func(c *checked) bool { return anyOf(c.input, isSNaN) },
+		rewrite: func(c *checked) []zed.Value {
+			out := make([]zed.Value, len(c.input))
+			for i, v := range c.input {
+				out[i] = oracle.MapLeaves(v, quietNaN)
+			}
+			return out
+		},
+	},
 	{
 		sig:   "C03/write/dict-order-ties",
 		stage: "row",
